@@ -865,12 +865,12 @@ def _blocks(step=256):
 
 def plan(tier):
     q = tier == "quick"
-    specs = [{"kind": "ident", "n": 170 if q else 2500} for _ in range(12)]
+    specs = [{"kind": "ident", "n": 170 if q else 8000} for _ in range(12)]
     for base, codec, coll in PAIRS:
-        specs.append({"kind": "predef", "base": base, "codec": codec, "coll": coll, "n": 25 if q else 400})
+        specs.append({"kind": "predef", "base": base, "codec": codec, "coll": coll, "n": 25 if q else 1200})
     for base, codec, coll in EXTRA_PAIRS:
         specs.append({"kind": "predef", "base": base, "codec": codec, "coll": coll, "n": 0, "only": "kana"})
-    specs += [{"kind": "decode", "n": 1500 if q else 20000} for _ in range(2)]
+    specs += [{"kind": "decode", "n": 1500 if q else 50000} for _ in range(2)]
     specs += [{"kind": "cid2code", "coll": c} for c in CJK_COLLS]
     return specs
 
